@@ -20,7 +20,7 @@ cases = list(prop.cases(Rng(f"{pid}-{SEED}-{tier}"), tier))
 if getattr(prop, "SHAPES", True):
     srng = Rng(f"{pid}-{SEED}-{tier}-shapes")
     cases = [shapes.decorate(c, srng, allow_threads=getattr(prop, 'THREADS', False)) for c in cases]
-run._SCHED.update({'threads_s': 10.0, 'preempt_cases': 36, 'per_kind_max': 4, 'per_kind': {}})
+run._SCHED.update({'threads_s': 10.0, 'preempt_cases': 40, 'per_kind_max': 6, 'per_kind': {}})
 recs, dis, fails = run.evaluate(prop, cases, st)
 print(len(recs), "cases;", len(dis), "disagreements;", len(fails), "oracle failures")
 if '-t' in sys.argv:
